@@ -490,6 +490,28 @@ def check_cell(case, rec):
         if not g.verify(pub, digest, r, s):
             raise Violation("%s signature r=%#x s=%#x is rejected by OpenSSL ECDSA_do_verify (digest %s, public point %#x,%#x) [%s]" % (
                 what, r, s, digest.hex(), pub[0], pub[1], ctx(case)))
+    # the SAME public key arriving through the decoders (raw string / DER / PEM / point), optionally with the multiplication table a
+    # caller may ask for (precompute, eager or lazy): the signatures verify, another message does not
+    form = case["seed"] % 12
+    loader, pre = ("string", "der", "pem", "point")[form % 4], ("none", "eager", "lazy")[form // 4]
+    rec.cls("vk.loader=" + loader)
+    rec.cls("vk.precompute=" + pre)
+    try:
+        if loader == "string":
+            vk2 = VerifyingKey.from_string(vk.to_string(), lib_curve(cname), hfun(other_hash(h)))
+        elif loader == "der":
+            vk2 = VerifyingKey.from_der(vk.to_der(), hfun(other_hash(h)))
+        elif loader == "pem":
+            vk2 = VerifyingKey.from_pem(vk.to_pem(), hfun(other_hash(h)))
+        else:
+            vk2 = VerifyingKey.from_public_point(L_Point(lib_curve(cname).curve, pub[0], pub[1]), lib_curve(cname), hfun(other_hash(h)))
+        if pre != "none":
+            vk2.precompute(lazy=(pre == "lazy"))
+    except Exception as e:
+        raise Violation("loading the public key via %s%s raised %s: %s [%s]" % (loader, "" if pre == "none" else " + precompute(%s)" % pre, type(e).__name__, e, ctx(case)))
+    for what, sig in sigs[:2]:
+        must_verify("%s signature, key loaded via %s, precompute=%s," % (what, loader, pre), vk2, sig, case)
+    must_reject("signature checked against another message, key loaded via %s, precompute=%s" % (loader, pre), vk2, sigs[0][1], case, msg=msg + b"\x00")
     # nonce given explicitly: r must be (k*G).x mod n as OpenSSL computes it
     r1, s1 = dec_sig(enc, sigs[1][1], n)
     e = R.digest_to_int(digest, n)
